@@ -331,7 +331,7 @@ def classify_mismatches(ctx, mism, recfile, matchers, what, max_report=20):
     """Splits mismatches into known findings and violations. matchers: {finding_id: fn(record, detail)->bool}."""
     if not mism:
         return
-    recs = index_records(recfile, [m[0] for m in mism]) if recfile else {}
+    recs = index_records(recfile, [m[0] for m in mism]) if recfile else {m[0]: (m[1].get("rec", {}) if isinstance(m[1], dict) else {}) for m in mism}
     active = {f["id"]: f for f in ctx.findings if f.get("status") == "known"}
     nv = 0
     for (rid, detail, tag, extra) in mism:
